@@ -67,6 +67,11 @@ pub enum Mut {
     Cut { sel: u16, n: u8 },
     /// (e): prefix + [EOF] + [comment block] + 128-byte record starting with "SAUCE"
     Sauce(SauceRec),
+    /// text formats: replace the pick(sel, n)-th number of the text (maximal run of decimal digits, or of hex digits when `hex`)
+    /// by NUMBERS[val]
+    Number { sel: u16, hex: bool, val: u8 },
+    /// text formats: insert the line HEADER_LINES[kind] + NUMBERS[val] in front of the pick(at, lines + 1)-th line
+    HeaderLine { at: u16, kind: u8, val: u8 },
 }
 
 /// operations on the record list of an IcyDraw container
@@ -77,6 +82,8 @@ pub enum Inner {
     Drop { chunk: u16 },
     Dup { chunk: u16, name: u8 },
     Swap { a: u16, b: u16 },
+    /// a new record `back` records from the end (1 = in front of END), e.g. a continuation record `LAYER_<layer>~1`
+    Insert { back: u8, key: String, data: Bytes },
 }
 
 pub const CHUNK_NAMES: [&str; 14] = [
@@ -95,6 +102,82 @@ pub const CHUNK_NAMES: [&str; 14] = [
     "END",
     "OTHER",
 ];
+
+/// magnitudes for numbers in text formats: around u8/u16/u32/i32/u64/i64 limits, beyond u64, and hex spellings
+pub const NUMBERS: [&str; 16] = [
+    "0",
+    "1",
+    "255",
+    "256",
+    "65535",
+    "65536",
+    "2147483647",
+    "2147483648",
+    "4294967296",
+    "9223372036854775808",
+    "18446744073709551615",
+    "18446744073709551616",
+    "123456789012345678901234567890",
+    "ffffffff",
+    "ffffffffffffffff",
+    "10000000000000000",
+];
+
+/// header / comment lines of the five palette text formats (a number is appended)
+pub const HEADER_LINES: [&str; 20] = [
+    "#Colors: ",
+    ";Colors: ",
+    "#Colors:",
+    "#Name: ",
+    "#Palette Name: ",
+    ";Palette Name: ",
+    "#Author: ",
+    "#Description: ",
+    ";Description: ",
+    "#Columns: ",
+    "Columns: ",
+    "Name: ",
+    "GIMP Palette ",
+    "JASC-PAL ",
+    "0100 ",
+    ";paint.net Palette File ",
+    ";Paint.NET ",
+    "ICE Palette ",
+    "",
+    "FF",
+];
+
+/// (start, end) of the numbers of a text
+pub fn number_runs(b: &[u8], hex: bool) -> Vec<(usize, usize)> {
+    let is = |c: u8| if hex { c.is_ascii_hexdigit() } else { c.is_ascii_digit() };
+    let mut out = Vec::new();
+    let mut i = 0;
+    while i < b.len() {
+        if is(b[i]) {
+            let s = i;
+            while i < b.len() && is(b[i]) {
+                i += 1;
+            }
+            out.push((s, i));
+        } else {
+            i += 1;
+        }
+    }
+    out
+}
+
+/// start offsets of the lines of a text, plus its length
+pub fn line_starts(b: &[u8]) -> Vec<usize> {
+    let mut v = vec![0];
+    for (i, c) in b.iter().enumerate() {
+        if *c == b'\n' && i + 1 < b.len() {
+            v.push(i + 1);
+        }
+    }
+    v.push(b.len());
+    v.dedup();
+    v
+}
 
 pub const EXTREMES_1: [u64; 5] = [0, 1, 0x7F, 0x80, 0xFF];
 pub const EXTREMES_2: [u64; 8] = [0, 1, 0x7F, 0x80, 0xFF, 0xFFFF, 0x7FFF, 0x8000];
@@ -300,6 +383,25 @@ pub fn apply(m: &Mut, b: &mut Vec<u8>, ctx: Ctx) {
             let out = build_sauce(r, b);
             *b = out;
         }
+        Mut::Number { sel, hex, val } => {
+            let runs = number_runs(b, *hex);
+            if runs.is_empty() {
+                return;
+            }
+            let (s, e) = runs[pick(*sel, runs.len())];
+            b.splice(s..e, NUMBERS[*val as usize % NUMBERS.len()].bytes());
+        }
+        Mut::HeaderLine { at, kind, val } => {
+            let starts = line_starts(b);
+            let o = starts[pick(*at, starts.len())];
+            let mut line = HEADER_LINES[*kind as usize % HEADER_LINES.len()].as_bytes().to_vec();
+            line.extend_from_slice(NUMBERS[*val as usize % NUMBERS.len()].as_bytes());
+            line.push(b'\n');
+            if o == b.len() && !b.is_empty() && b[b.len() - 1] != b'\n' {
+                line.insert(0, b'\n');
+            }
+            b.splice(o..o, line);
+        }
     }
 }
 
@@ -340,6 +442,10 @@ pub fn apply_inner(op: &Inner, chunks: &mut Vec<Chunk>) {
         }
         Inner::Swap { a, b } => {
             chunks.swap(pick(*a, n), pick(*b, n));
+        }
+        Inner::Insert { back, key, data } => {
+            let i = n.saturating_sub(*back as usize);
+            chunks.insert(i, Chunk { key: key.clone(), data: data.clone() });
         }
     }
 }
@@ -424,10 +530,40 @@ pub fn muts() -> BoxedStrategy<Vec<Mut>> {
     .boxed()
 }
 
+/// grammar-aware mutation of a text format: a number replaced by an extreme magnitude, or a header line with such a number added
+pub fn text_number() -> BoxedStrategy<Mut> {
+    prop_oneof![
+        3 => (any::<u16>(), any::<bool>(), 0u8..NUMBERS.len() as u8).prop_map(|(sel, hex, val)| Mut::Number { sel, hex, val }),
+        // the first numbers of a file are its header fields
+        2 => (0u16..=2000, any::<bool>(), 0u8..NUMBERS.len() as u8).prop_map(|(sel, hex, val)| Mut::Number { sel, hex, val }),
+        3 => (prop_oneof![Just(0u16), Just(u16::MAX), any::<u16>()], 0u8..HEADER_LINES.len() as u8, 0u8..NUMBERS.len() as u8).prop_map(|(at, kind, val)| Mut::HeaderLine { at, kind, val }),
+    ]
+    .boxed()
+}
+
+/// payloads of a continuation record: nothing, one byte, a few cells (short, long, invisible, end of line), picture bytes
+pub fn continuation_payload() -> BoxedStrategy<Vec<u8>> {
+    prop_oneof![
+        2 => Just(vec![]),
+        1 => any::<u8>().prop_map(|b| vec![b]),
+        3 => vec(prop_oneof![
+            Just(vec![0x07, 0x40, b'a', 7, 0, 0]),
+            Just(vec![0x01, 0x00, 0x88, 0x25, 0, 0, 44, 1, 0, 0, 2, 0, 0, 0, 1, 0]),
+            Just(vec![0x00, 0x80]),
+            Just(vec![0x00, 0xC0]),
+        ], 1..=6).prop_map(|v| v.concat()),
+        2 => vec(any::<u8>(), 1..=24),
+    ]
+    .boxed()
+}
+
 /// mutation of a record inside an IcyDraw container
 pub fn inner() -> BoxedStrategy<Inner> {
-    let m = prop_oneof![3 => field(), 3 => any::<u16>().prop_map(Mut::Trunc), 1 => (1u8..=40).prop_map(Mut::ChopTail), 3 => set(), 3 => word(), 1 => splice()];
+    let m = prop_oneof![3 => field(), 3 => any::<u16>().prop_map(Mut::Trunc), 1 => (1u8..=40).prop_map(Mut::ChopTail), 3 => set(), 3 => word(), 1 => splice(), 2 => text_number()];
     prop_oneof![
+        // a continuation record for layer 0..=4 (existing or not, of either role), mostly in front of the END record
+        5 => (prop_oneof![4 => Just(1u8), 1 => 0u8..=5], 0u8..=4, 1u8..=2, continuation_payload())
+            .prop_map(|(back, layer, k, data)| Inner::Insert { back, key: format!("LAYER_{layer}~{k}"), data: Bytes(data) }),
         12 => (any::<u16>(), m).prop_map(|(chunk, m)| Inner::Payload { chunk, m }),
         2 => (any::<u16>(), 0u8..14).prop_map(|(chunk, name)| Inner::Rename { chunk, name }),
         1 => any::<u16>().prop_map(|chunk| Inner::Drop { chunk }),
